@@ -75,12 +75,43 @@ func c15Defines() []c15Def {
 			"B": func(c ref.DefCtx) bool { return c.CountOf("B") <= 2 && c.Cur().V >= 2 },
 			"C": func(c ref.DefCtx) bool { return c.Cur().V >= 1 },
 		}},
+		// MAX / MIN / SUM over a column whose values are all negative (n = v - 4), the row under test included
+		{"neg-agg", map[string]string{"A": "n >= MAX(n)", "B": "n <= MIN(n)", "C": "SUM(n) >= -6 AND MAX(A.n) < 0"}, ref.Define{
+			"A": func(c ref.DefCtx) bool { mx, _, _ := c15NegAgg(c, ""); return c.Cur().V-4 >= mx },
+			"B": func(c ref.DefCtx) bool { _, mn, _ := c15NegAgg(c, ""); return c.Cur().V-4 <= mn },
+			"C": func(c ref.DefCtx) bool {
+				_, _, sum := c15NegAgg(c, "")
+				mxA, _, _ := c15NegAgg(c, "A")
+				return sum >= -6 && c.CountOf("A") > 0 && mxA < 0 // MAX over no row is NULL, and NULL < 0 is not true
+			},
+		}},
 		{"twice-agg", map[string]string{"A": "v >= 1", "B": "v >= FIRST(A.v) AND id - FIRST(A.id) >= 2", "C": "COUNT(A.*) < 3 AND COUNT(B.*) < 2"}, ref.Define{
 			"A": func(c ref.DefCtx) bool { return c.Cur().V >= 1 },
 			"B": func(c ref.DefCtx) bool { f, ok := c.FirstOf("A"); return ok && c.Cur().V >= f.V && c.Cur().ID-f.ID >= 2 },
 			"C": func(c ref.DefCtx) bool { return c.CountOf("A") < 3 && c.CountOf("B") < 2 },
 		}},
 	}
+}
+
+// c15NegAgg: max, min and sum of n = v - 4 over the rows of the match so far (the row under test included) that are
+// classified as name ("" = all rows).
+func c15NegAgg(c ref.DefCtx, name string) (mx, mn, sum float64) {
+	first := true
+	for i, l := range c.Labels {
+		if name != "" && l != name {
+			continue
+		}
+		n := c.Ev[c.Start+i].V - 4
+		if first || n > mx {
+			mx = n
+		}
+		if first || n < mn {
+			mn = n
+		}
+		first = false
+		sum += n
+	}
+	return
 }
 
 func patVars(p ref.Pat) map[string]bool {
@@ -260,7 +291,7 @@ func c15Within(u fw.Unit) fw.Result {
 						want, defined := ref.ExpectedMatchesWithin(p, d.Fn, ev, skip, 2000)
 						r := detExec(sql, detOpts{Eager: true, Horizon: 50 * vtime.Millisecond}, func(e *Env) {
 							for _, x := range ev {
-								e.Emit(Row{"k": "a", "id": x.ID, "ts": x.TS, "v": x.V})
+								e.Emit(Row{"k": "a", "id": x.ID, "ts": x.TS, "v": x.V, "n": x.V - 4})
 							}
 						})
 						a.r.Evaluations++
@@ -425,7 +456,7 @@ func (c15) Run(u fw.Unit) fw.Result {
 				want, defined := ref.ExpectedMatches(p, d.Fn, ev, cfg.Skip)
 				feed := func(e *Env) {
 					for i, x := range ev {
-						e.Emit(Row{"k": "a", "id": x.ID, "ts": i + 1, "v": x.V})
+						e.Emit(Row{"k": "a", "id": x.ID, "ts": i + 1, "v": x.V, "n": x.V - 4})
 					}
 				}
 				r := detExec(sql, detOpts{Eager: true, Horizon: 50 * vtime.Millisecond}, feed)
@@ -530,9 +561,9 @@ func (c15) Run(u fw.Unit) fw.Result {
 						ts := 0
 						for i := range ev {
 							ts++
-							e.Emit(Row{"k": "a", "id": ev[i].ID, "ts": ts, "v": ev[i].V})
+							e.Emit(Row{"k": "a", "id": ev[i].ID, "ts": ts, "v": ev[i].V, "n": ev[i].V - 4})
 							ts++
-							e.Emit(Row{"k": "b", "id": evB[i].ID, "ts": ts, "v": evB[i].V})
+							e.Emit(Row{"k": "b", "id": evB[i].ID, "ts": ts, "v": evB[i].V, "n": evB[i].V - 4})
 						}
 					})
 					a.r.Evaluations++
